@@ -66,12 +66,23 @@ def _mods():
                   TrainingModelsDict=TrainingModelsDict, real_rlock=tmodel.RLock)
 
         class Net(nn.Module):
-            def __init__(self, vals, grads):
+            def __init__(self, vals, grads, frozen=()):
                 super().__init__()
                 for k, (v, g) in enumerate(zip(vals, grads)):
                     p = nn.Parameter(v)
+                    # a frozen parameter (`requires_grad=False`: a backbone, an EMA copy the trainer writes in place)
+                    # is a parameter like any other for the synchronisation
+                    p.requires_grad = k not in frozen
                     p._grad = g
                     setattr(self, f"p{k}", p)
+
+            # a module class with value equality (two networks of the same configuration compare equal and hash
+            # alike - a dataclass-style module): identity is what the wrappers have to go by
+            def __eq__(self, other) -> bool:
+                return type(other) is type(self) and len(self._parameters) == len(other._parameters)
+
+            def __hash__(self) -> int:
+                return hash((type(self).__name__, len(self._parameters)))
 
         class ScriptedOptimizer(torch.optim.Optimizer):
             """`step()` writes the scripted next value into each parameter, one after the other."""
@@ -170,7 +181,7 @@ def build(case: dict, sched: accsched.AccessSched):
 
     tmodel.RLock = sched.RLock
     try:
-        net = M["Net"](vals, grads)
+        net = M["Net"](vals, grads, tuple(case.get("frozen", ())))
         tm = M["ptorch"].TorchTrainingModel(
             net, inference_thread_only=inf_only,
             inference_procedure=lambda model, i: use(model, i))
@@ -583,6 +594,8 @@ def suite_exhaustive(ctx: Ctx) -> SuiteResult:
             explore_case(base, ctx.driver, res, max_runs=None if thorough else 4000)
             if iops == ["unwrap", "unwrap"]:
                 explore_case(dict(base, reuse_ctx=True), ctx.driver, res, max_runs=None if thorough else 4000)
+            if iops == ["infer"] and len(tops) >= 3:
+                explore_case(dict(base, frozen=[0]), ctx.driver, res, max_runs=None if thorough else 4000)
             if len(res.violations) > 20 or len(res.disagreements) > 20:
                 return res
     if thorough:
@@ -634,7 +647,7 @@ def random_case(rng, big=False) -> dict:
     return {"kind": "conc", "nparams": n, "iops": iops, "tops": tops, "gran": gran,
             "grads": rng.choice(["mixed", "mixed", "none"]),
             "schedule": [1 if rng.random() < p_switch else 0 for _ in range(700)],
-            "reuse_ctx": rng.random() < 0.35}
+            "reuse_ctx": rng.random() < 0.35, "frozen": [0] if rng.random() < 0.3 else []}
 
 
 def suite_random(ctx: Ctx) -> SuiteResult:
